@@ -393,7 +393,7 @@ def build_random_graph(seed, max_nodes=12):
 
     n = rng.randint(3, max_nodes)
     for _ in range(n):
-        kind = rng.choice(["call", "call", "call2", "kwcall", "operator", "getattr-call", "getitem", "inplace", "update", "assert", "cast", "tuple", "nested", "nested-closure", "dict", "constant-arg", "unused", "list-arg", "builtin", "tick", "tick"])
+        kind = rng.choice(["call", "call", "call2", "kwcall", "operator", "getattr-call", "getitem", "getitem-slices", "inplace", "update", "update-slice", "assert", "cast", "tuple", "nested", "nested-closure", "dict", "constant-arg", "unused", "list-arg", "builtin", "tick", "tick"])
         if kind == "call":
             a, b = pick(), pick()
             add(py.call(py.getattr(np_, rng.choice(["add", "subtract", "multiply", "maximum"])), [a, b]), kind)
@@ -409,6 +409,30 @@ def build_random_graph(seed, max_nodes=12):
             v = pick()
             row = py.getitem(v, 0)
             add(py.call(py.getattr(np_, "add"), [pick(), row]), kind)
+        elif kind == "getitem-slices":
+            # keys with literal bounds, including 0 as a stop and negative steps; every variant rebuilds the full shape
+            v = pick()
+            n0 = shape[0]
+            k = rng.choice([0, 1, n0])
+            variant = rng.choice(["split", "reverse-twice", "zero-stop-reversed", "tuple-key"])
+            if variant == "split":
+                parts = [py.getitem(v, slice(None, k)), py.getitem(v, slice(k, None))]
+                add(py.call(py.getattr(np_, "concatenate"), [parts], {"axis": 0}), kind)
+            elif variant == "reverse-twice":
+                add(py.getitem(py.getitem(v, slice(None, None, -1)), slice(None, None, -1)), kind)
+            elif variant == "zero-stop-reversed":
+                tail = py.getitem(py.getitem(v, slice(n0 - 1, 0, -1)), slice(None, None, -1))  # rows 1..n0-1
+                add(py.call(py.getattr(np_, "concatenate"), [[py.getitem(v, slice(0, 1)), tail]], {"axis": 0}), kind)
+            else:
+                rest = tuple(slice(None) for _ in shape[1:])
+                parts = [py.getitem(v, (slice(None, k),) + rest), py.getitem(v, (slice(k, None),) + rest)]
+                add(py.call(py.getattr(np_, "concatenate"), [parts], {"axis": 0}), kind)
+        elif kind == "update-slice":
+            v = py.call(py.getattr(np_, "copy"), [pick()])
+            k = rng.choice([0, 0, 1])
+            out = rng.choice([py.setitem, py.additem])(v, slice(0, k) if rng.random() < 0.5 else slice(None, k), rng.randint(1, 5))
+            dead.add(id(v))
+            add(out, kind)
         elif kind == "inplace":
             # the target of an in-place node has no other consumer (as in einx's own lowering): a private copy
             v = py.call(py.getattr(np_, "copy"), [pick()])
